@@ -423,7 +423,7 @@ func c08Bodies(c *Ctx, cfns []*ssa.Function) {
 			start := ssa.Instruction(call)
 			for _, r := range *call.Referrers() {
 				ex, ok := r.(*ssa.Extract)
-				if !ok || ex.Index != 1 {
+				if !ok || ir.TypeStr(ex.Type()) != "error" { // (resp, err) or a helper's (resp, stage, err)
 					continue
 				}
 				errVals := []ssa.Value{ex}
@@ -606,6 +606,14 @@ func c08Release(c *Ctx) {
 					}
 					cc := call.Common()
 					chk := func(v ssa.Value) {
+						for i := 0; i < 3; i++ { // (handed on as a narrower interface: closePipe(p.stdin))
+							switch x := v.(type) {
+							case *ssa.MakeInterface:
+								v = x.X
+							case *ssa.ChangeInterface:
+								v = x.X
+							}
+						}
 						if u, ok := v.(*ssa.UnOp); ok {
 							if fa, ok := u.X.(*ssa.FieldAddr); ok {
 								if key, _, _, _ := ir.FullField(fa); key == fld || aliases[fld][key] {
